@@ -1,10 +1,10 @@
 package exec
 
 import (
-	"strconv"
 	"fmt"
 	"go/token"
 	"go/types"
+	"strconv"
 	"strings"
 
 	"golang.org/x/tools/go/ssa"
